@@ -360,6 +360,10 @@ func startBroker() func() {
 	}
 	cfg := config.DefaultConfig()
 	cfg.API = config.API{}
+	if *maxPkt > 0 {
+		// the limit is per MQTT packet: a WebSocket message may carry many packets and be larger than it
+		cfg.MQTT.MaxPacketSize = uint32(*maxPkt)
+	}
 	srv := server.New(server.WithConfig(cfg), server.WithTCPListener(ln), server.WithWebsocketServer(ws))
 	done := make(chan error, 1)
 	go func() { done <- srv.Run() }()
@@ -494,6 +498,7 @@ type Result struct {
 var (
 	profiles = map[string]*Profile{}
 	seq      int64
+	maxPkt   = flag.Int("maxpkt", 0, "mqtt.max_packet_size of the broker (0 = default)")
 	softMs   = flag.Int("soft", 1500, "ms without progress before the canary is consulted (bulk)")
 	patMs    = flag.Int("patient", 8000, "the same for the confirmation runs")
 	lingerMs = flag.Int("linger", 250, "ms to wait for answers that may legitimately be lost (packets sharing a message with DISCONNECT)")
